@@ -42,6 +42,10 @@ def known_sig(t, l, clause):
                 if s['ev'].get('now', 0) < t0 + dl:
                     early = True
     out['join_rearmed'] = rearmed
+    # KF-C06-1: a start_task(first_run=False) message (sent by a rerun or by resume) was REDELIVERED: _run_existing runs once more
+    if ck in ('DupNoEffect', 'StartOnce', 'AttemptBound', 'JoinOnce', 'OnePerIndex', 'NoDoubleDispatch'):
+        out['existing_start_redelivered'] = any(st['ev']['kind'] == 'msg' and st['ev']['what'] == 'start_task' and st['ev'].get('dup') and not st['ev'].get('fr', True)
+                                                for st in t['steps'][:l])
     # KF-C10-5: a start_task(first_run=False) sent by resume_workflow for an IDLE task was delivered (the task may start twice)
     if ck in ('AttemptBound', 'StopAtFirstSuccess', 'RetryStopsWhenTold', 'FinalIffLast', 'DelayRespected'):
         out['resume_sent_start_delivered'] = (not any(st['ev']['kind'] == 'op' and st['ev']['what'] == 'rerun' for st in t['steps'][:l])) and any(
